@@ -530,7 +530,7 @@ def parts(tier):
             name="pafs",
             evaluate=evaluate,
             strategy=strategy,
-            budget={"quick": 1000, "thorough": 64000},
+            budget={"quick": 1000, "thorough": 256000},
             shards={"quick": 1, "thorough": 16},
             min_nontrivial={"quick": 90, "thorough": 6000},
         )
